@@ -221,7 +221,9 @@ fn check_ledger(inst: &mut Inst, world: &World) -> Vec<(String, String)> {
     if world.count() != 0 {
         return bad;
     }
-    let holders: Vec<(String, Address)> = (0..3u8).map(|i| (pkscript(i), pk_addr(i))).collect();
+    // the three ordinary holders and four pairs of long pkscripts (35, 68, 105, 520 bytes) that differ in
+    // their last byte only: distinct pkscripts are distinct holders
+    let holders: Vec<(String, Address)> = (0..3u8).chain(0x40..0x48u8).map(|i| (pkscript(i), pk_addr(i))).collect();
     for (pk, addr) in &holders {
         for sp in SPELLINGS {
             let tk = sp.to_lowercase();
@@ -328,14 +330,34 @@ pub fn scenarios(tier: &str) -> Vec<Scenario> {
     let mut opts = Opts::new("C07", "ledger");
     opts.nf_compare = false;
     opts.err_unchanged = false;
-    vec![Scenario {
-        name: "ledger".into(),
-        opts,
-        starts: vec![("initialised, 4 ordi deposited to p1".into(), base)],
-        alphabet: alpha,
-        bounds: Bounds { depth: if thorough { 5 } else { 4 }, dev: vec![1, 1], dev_total: 2 },
-        weight: 1.0,
-        network: "regtest".into(),
-        traces: false,
-    }]
+    // long pkscripts: deposits to one of a pair, withdrawals by the other (which holds nothing)
+    let mut long_alpha = Vec::new();
+    for fam in 0..4u8 {
+        let (a, b) = (0x40 + 2 * fam, 0x41 + 2 * fam);
+        long_alpha.push(m_block(&format!("B(dep L{}a ordi 5, wd L{}b ordi 1)", fam, fam), vec![dep(a, "ordi", "0x5"), wd(b, "ordi", "0x1")]));
+        long_alpha.push(m_block(&format!("B(dep L{}b ordi 2, wd L{}a ordi 3)", fam, fam), vec![dep(b, "ordi", "0x2"), wd(a, "ordi", "0x3")]));
+    }
+    long_alpha.push(m_reorg(0, RTarget::Back(1)));
+    vec![
+        Scenario {
+            name: "ledger".into(),
+            opts: opts.clone(),
+            starts: vec![("initialised, 4 ordi deposited to p1".into(), base.clone())],
+            alphabet: alpha,
+            bounds: Bounds { depth: if thorough { 5 } else { 4 }, dev: vec![1, 1], dev_total: 2 },
+            weight: 4.0,
+            network: "regtest".into(),
+            traces: false,
+        },
+        Scenario {
+            name: "ledger-long-pkscripts".into(),
+            opts,
+            starts: vec![("initialised, 4 ordi deposited to p1".into(), base)],
+            alphabet: long_alpha,
+            bounds: Bounds { depth: if thorough { 4 } else { 3 }, dev: vec![1], dev_total: 1 },
+            weight: 1.0,
+            network: "regtest".into(),
+            traces: false,
+        },
+    ]
 }
